@@ -178,7 +178,7 @@ inline void *reader_main(void *p) {
 
 using SubjectFactory = Subject *(*)(const PlanText &p);
 
-inline PlanText gen_readers(const CfgEntry &ce, const GenCtx &g, Stats &st, size_t eps, bool needs_keys, PlanText (*keygen)(PlanText, size_t, size_t, Rng &, Rng &)) {
+inline PlanText gen_readers(const CfgEntry &ce, const GenCtx &g, Stats &st, size_t eps, bool needs_keys, PlanText (*keygen)(PlanText, size_t, size_t, Rng &, Rng &), bool allow_scale = true) {
     PlanText p;
     Rng cfg = sim::stream(g.run_seed, "cfg"), work = sim::stream(g.run_seed, "work"), sched = sim::stream(g.run_seed, "sched");
     p.set("engine", "readsim");
@@ -195,6 +195,18 @@ inline PlanText gen_readers(const CfgEntry &ce, const GenCtx &g, Stats &st, size
     p.set("qseed", work.next() >> 1);
     p.set("qmax", 300);
     size_t n = g.profile == "boundary" ? (size_t) cfg.range(1, 4) : (cfg.chance(60) ? (size_t) cfg.range(20000, g.tsan ? 40000 : 100000) : (size_t) cfg.range(1, 3000));
+    // scale slot (every flavour, every 256th run of a worker and its third): an object with several hundred thousand keys, i.e.
+    // tens of thousands of segments (one-level indexes above 2^16 segments), few operations per reader
+    bool scale = allow_scale && g.profile.empty() && needs_keys && ((g.run_index >> 4) % 256) == 2;
+    if (scale) {
+        p.set("recipe", "walk " + std::to_string(cfg.range(230000, 320000)) + " " + std::to_string(work.next() >> 1) + " " + std::to_string(cfg.range(10, 30)) + " 0 0");
+        p.set("recipe_start", cfg.range(0, 100000));
+        p.set("scale", 1);
+        p.set("script_len", cfg.range(20, 60));
+        p.set("readers", sched.range(2, 6));
+        p.set("motifs", "scale-walk+");
+        return p;
+    }
     if (needs_keys) p = keygen(p, n, eps, cfg, work);
     else p.set("n", n);
     (void) st;
@@ -281,7 +293,7 @@ struct MappedReaders {
 };
 template<typename K, typename V, size_t PE>
 struct DynamicReaders {
-    static PlanText gen(const CfgEntry &ce, const GenCtx &g, Stats &st) { return gen_readers(ce, g, st, PE, true, &keygen_for<K>); }
+    static PlanText gen(const CfgEntry &ce, const GenCtx &g, Stats &st) { return gen_readers(ce, g, st, PE, true, &keygen_for<K>, false); } // no scale slot: the single-threaded preparation would dominate
     static Subject *make(const PlanText &p) { auto d = keys_from_plan<K>(p); if (d.empty()) d.push_back(K(1)); return new DynamicSubject<K, V, PE>(d, p.get_u("qseed", 1)); }
     static Outcome run(const CfgEntry &ce, const PlanText &p, const RunCtx &, Stats &st) { return run_readers(ce, p, st, &make); }
 };
